@@ -42,6 +42,14 @@ var c10Roots = []struct {
 	{"[]util.In", reflect.TypeFor[[]futil.In]()},
 	{"map[string]util.In", reflect.TypeFor[map[string]futil.In]()},
 	{"util.Sub", reflect.TypeFor[futil.Sub]()},
+	// exported fields (and a type) whose names start with non-ASCII upper-case letters
+	{"util.Maß", reflect.TypeFor[futil.Maß]()},
+	{"[]*util.Maß", reflect.TypeFor[[]*futil.Maß]()},
+	{"struct{Ärmel int; Ωmega []string}", reflect.TypeFor[struct {
+		Ärmel int
+		Ωmega []string
+		Öl    *futil.Name
+	}]()},
 	{"*int", reflect.TypeFor[*int]()},
 	{"*string", reflect.TypeFor[*string]()},
 	{"*util.Dur", reflect.TypeFor[*futil.Dur]()},
@@ -865,7 +873,7 @@ func init() {
 				return &vlitCase{Root: r.Intn(len(c10Roots)), Seed: r.U64(), Depth: 1 + r.Intn(4)}
 			},
 			ShrinkBudget: 6, MaxShrinks: 5,
-			Rule: "random values (depth ≤ 4) of 49 root types (maps keyed by bool, float64, int32, uint8, a named string, [2]int and a struct among them, nested maps, slices of slices, arrays of arrays) (one of them holding composites that differ only below a pointer side by side) built with reflect around fixture named types of three packages, time.Duration and an unnamed struct type: structs with exported and unexported fields, single-level pointers to scalars / strings / named scalars / structs (zero ones included; sometimes one and the same pointer in several elements of a slice or array, or in two fields), slices, arrays, maps with string / int / named keys, strings with quotes, newlines, backquotes, NUL and non-UTF-8 bytes, extreme integers, runes, float32/float64 edge values; rendered with snippet.Value through a real writer, then six more times through fresh writers — three of them with the very snippet object of the first rendering — (same bytes, same import names registered with each writer: map order must not show, and a snippet kept by a generator renders into a second file as into the first); compared with the model byte for byte (leaf literals and type texts supplied); oracle: every literal parses as a Go expression, and a sample (quick: 300, thorough: all) is compiled as `var vN T = <literal>` with the registered imports and run, canon.Value of the result compared with canon.Value of the original (nil = empty, omitted fields zero)",
+			Rule: "random values (depth ≤ 4) of 52 root types (among them structs whose exported field names start with non-ASCII upper-case letters) (maps keyed by bool, float64, int32, uint8, a named string, [2]int and a struct among them, nested maps, slices of slices, arrays of arrays) (one of them holding composites that differ only below a pointer side by side) built with reflect around fixture named types of three packages, time.Duration and an unnamed struct type: structs with exported and unexported fields, single-level pointers to scalars / strings / named scalars / structs (zero ones included; sometimes one and the same pointer in several elements of a slice or array, or in two fields), slices, arrays, maps with string / int / named keys, strings with quotes, newlines, backquotes, NUL and non-UTF-8 bytes, extreme integers, runes, float32/float64 edge values; rendered with snippet.Value through a real writer, then six more times through fresh writers — three of them with the very snippet object of the first rendering — (same bytes, same import names registered with each writer: map order must not show, and a snippet kept by a generator renders into a second file as into the first); compared with the model byte for byte (leaf literals and type texts supplied); oracle: every literal parses as a Go expression, and a sample (quick: 300, thorough: all) is compiled as `var vN T = <literal>` with the registered imports and run, canon.Value of the result compared with canon.Value of the original (nil = empty, omitted fields zero)",
 		}
 		return st
 	}
